@@ -8,6 +8,7 @@ import sys
 import time
 
 ROOT = os.environ.get("VF_ROOT", "/verif")
+REPO = os.environ.get("VF_REPO", "/repo")  # the tree under test (seed evaluation points this at a scratch worktree)
 PY = "/verif/.venv/bin/python"
 
 
@@ -65,7 +66,7 @@ class Run:
 
     def run_replay(self, path, timeout=300):
         """exit 1 + 'REPRODUCED' => the violation reproduces on the real code."""
-        env = dict(os.environ, PYTHONPATH=f"{ROOT}:/repo", TZ="UTC", PYTHONDONTWRITEBYTECODE="1")
+        env = dict(os.environ, PYTHONPATH=f"{ROOT}:{REPO}", TZ="UTC", PYTHONDONTWRITEBYTECODE="1")
         try:
             r = subprocess.run([PY, path], capture_output=True, text=True, timeout=timeout, env=env)
         except subprocess.TimeoutExpired:
